@@ -7,6 +7,11 @@ hardware-level write identifies the command cycle it stems from.  Deciding obser
  (ii) after every write cycle that returned without exception, with the decorator in OK and in which the fake raised
       nothing, the fake's register file holds the most recently commanded value of every register.
 Decorator internals (pending_writes) are read only to *name the mechanism* of a violation, never to decide one.
+
+Two families of enumerated sequences: (a) all sequences up to length L from the OK state (default time-outs, "advance
+past time-out" symbols); (b) deep starts: a fixed prefix drives the real decorator into Issue / Reconnect / Error (with
+and without buffered values, on and just before the time-out boundaries; time-outs of 1 s and 2 s, advance symbol = 1 s)
+and all suffixes up to length L are enumerated from there.  The oracle is the same for both and also runs over the prefix.
 """
 from __future__ import annotations
 
@@ -24,7 +29,11 @@ RULE = ("all sequences of exactly length L (all prefixes are checked, so 'length
         "write/read failure, toggle failure of every register but the first (>= 2 registers), advance past "
         "reconnect_timeout, tick with reconnect ok, tick with reconnect fail, [thorough: advance past error_timeout, "
         "successful/failing read cycle]}; 1-3 registers; only_write_modified_values on/off; write_batch and per-register "
-        "write. evaluations = sequences; distinct non-trivial = distinct (config, sequence of decorator states and "
+        "write. Deep starts: for each fixed prefix in DEEP_PREFIXES (Issue, Issue with a partly written batch, Issue on the "
+        "reconnect boundary, Reconnect just entered / on the error boundary, each with and without buffered values, Error "
+        "with and without buffered values) all suffixes of exactly length L over {the cycle symbols, F, P, advance 1 s, "
+        "tick with reconnect ok/fail, read cycle} with reconnect_timeout = 1 s and error_timeout = 2 s, so that k advance "
+        "symbols land before / on / after each time-out. evaluations = sequences; distinct non-trivial = distinct (config, sequence of decorator states and "
         "hardware write outcomes) containing at least one failed hardware write followed by a later clean cycle")
 ASSUMPTIONS = [
     "trusted base: the recording fake (keeps its register file across outages, a failing call changes nothing), the "
@@ -35,9 +44,21 @@ ASSUMPTIONS = [
     "hardware writes is non-decreasing",
     "values are ints, so the float tolerance of filter_write_values plays no role",
     "a sequence is abandoned at its first violation (later effects would be consequences of it)",
+    "inspect.getmembers_static, called twice by every ErrorRecoveryDecorator constructor to forward extra public methods "
+    "of the concrete hardware (irrelevant here: the fake has none), is memoised per (class, instance attribute names) from "
+    "the harness - it is a pure function of those for objects without callable instance attributes; the first calls of "
+    "every key are compared with the real function (counter inspect_memo_verified). Speed only.",
+    "deep starts: a prefix is a fixed head of the sequence over the same symbols; whether it really left the decorator "
+    "in the intended state is counted (deep_start_in_intended_state / deep_start_elsewhere), not assumed",
 ]
 REQUIRED = {"sequences": 50000, "clean_cycle_checks": 100000, "hw_writes_checked": 200000, "recoveries_then_clean_cycle": 5000,
-            "pending_flush_writes": 200}
+            "pending_flush_writes": 200,
+            "deep_sequences": 500000, "deep_start_in_intended_state": 500000, "deep_clean_cycle_checks": 50000,
+            "deep_start:issue": 50000, "deep_start:issue_boundary": 50000, "deep_start:issue_partial": 10000,
+            "deep_start:reconnect": 50000, "deep_start:reconnect_late": 50000, "deep_start:reconnect_nopend": 50000,
+            "deep_start:reconnect_nopend_late": 50000, "deep_start:error": 50000, "deep_start:error_nopend": 50000,
+            "cycles_entering_error_with_new_value": 50000, "recoveries_from_error_then_clean_cycle": 5000,
+            "recoveries_after_error_entered_with_new_value_then_2_clean_cycles": 500, "inspect_memo_verified": 16}
 EXHAUSTIVE_ALL = True
 
 T0 = 1_700_000_000.0
@@ -57,6 +78,49 @@ def _alphabet(nreg, tier_extra):
     return a
 
 
+# deep starts: name -> (prefix over the deep alphabet, state the real decorator is expected to be in afterwards, min registers)
+# time-outs: reconnect 1 s, error 2 s; "t" advances 1 s. `last + timeout < now` is strict, so one t = on the boundary.
+DEEP_RT, DEEP_ET = 1, 2
+DEEP_PREFIXES = {
+    "issue":                   (["Cn", "F", "Cn"], "Issue", 1),                 # all values buffered, hardware failing
+    "issue_partial":           (["Cn", "P", "Cn"], "Issue", 2),                 # R0 reached the hardware, the rest did not
+    "issue_boundary":          (["Cn", "F", "Cn", "t"], "Issue", 1),            # exactly on the reconnect time-out
+    "reconnect":               (["Cn", "F", "Cn", "t", "t", "Cn"], "Reconnect", 1),             # just entered, values buffered
+    "reconnect_late":          (["Cn", "F", "Cn", "t", "t", "Cn", "t", "t"], "Reconnect", 1),   # exactly on the error time-out
+    "reconnect_nopend":        (["Cn", "F", "R", "t", "t", "R"], "Reconnect", 1),               # entered by reads, nothing buffered
+    "reconnect_nopend_late":   (["Cn", "F", "R", "t", "t", "R", "t", "t"], "Reconnect", 1),
+    "error":                   (["Cn", "F", "Cn", "t", "t", "Cn", "t", "t", "t", "Cn"], "Error", 1),   # buffered values
+    "error_nopend":            (["Cn", "F", "R", "t", "t", "R", "t", "t", "t", "R"], "Error", 1),
+}
+
+
+def _deep_alphabet(nreg):
+    a = ["Cn", "Cs"]
+    if nreg >= 2:
+        a += ["Cp", "Cq"]
+    a.append("F")
+    if nreg >= 2:
+        a.append("P")
+    return a + ["t", "T+", "T-", "R"]
+
+
+def _alpha_of(c):
+    return _deep_alphabet(c["nreg"]) if c.get("deep") else _alphabet(c["nreg"], c["extra"])
+
+
+def _deep_configs(tier):
+    q = tier == "quick"
+    out = []
+    for name, (_, _, minreg) in DEEP_PREFIXES.items():
+        for owm in (True, False):
+            if minreg <= 1:
+                out.append(({"nreg": 1, "owm": owm, "api": "batch", "extra": False, "deep": name}, 5 if q else 7))
+                out.append(({"nreg": 1, "owm": owm, "api": "single", "extra": False, "deep": name}, 5 if q else 6))
+            out.append(({"nreg": 2, "owm": owm, "api": "batch", "extra": False, "deep": name}, 4 if q else 5))
+        out.append(({"nreg": 2, "owm": True, "api": "single", "extra": False, "deep": name}, 3 if q else 5))
+    return out
+
+
 def _configs(tier):
     """(config, L). config: nreg, owm, api, extra"""
     q = tier == "quick"
@@ -74,11 +138,12 @@ def _configs(tier):
 
 def plan(tier, seed):
     jobs = []
-    for c, L in _configs(tier):
-        a = _alphabet(c["nreg"], c["extra"])
+    for c, L in _configs(tier) + _deep_configs(tier):
+        a = _alpha_of(c)
         k = 1 if tier == "quick" else 2
+        plen = len(DEEP_PREFIXES[c["deep"]][0]) if c.get("deep") else 0
         for first in itertools.product(range(len(a)), repeat=k):
-            jobs.append((len(a) ** (L - k), c, L, list(first)))
+            jobs.append((len(a) ** (L - k) * (plen + L), c, L, list(first)))
     nshards = 16 if tier == "quick" else 48
     jobs.sort(key=lambda j: -j[0])
     shards = [{"seed": seed, "tier": tier, "jobs": [], "w": 0} for _ in range(nshards)]
@@ -97,6 +162,44 @@ class _VT:
         return _VT.t
 
 
+class _InspectMemo:
+    """Stand-in for the `inspect` module inside hardware_recovery: everything is delegated, getmembers_static is
+    memoised (see ASSUMPTIONS). The first VERIFY calls per key are checked against the real function."""
+    VERIFY = 5
+
+    def __init__(self):
+        import inspect
+        self._i = inspect
+        self._memo: dict = {}
+        self.verified = 0
+        self.mismatch = 0
+
+    def __getattr__(self, name):
+        return getattr(self._i, name)
+
+    def getmembers_static(self, obj, predicate=None):
+        d = getattr(obj, "__dict__", None)
+        if d is None or any(callable(v) for v in d.values()):
+            return self._i.getmembers_static(obj, predicate)
+        key = (type(obj), tuple(sorted(d)), getattr(predicate, "__code__", predicate))
+        hit = self._memo.get(key)
+        if hit is None or hit[1] < self.VERIFY:
+            real = self._i.getmembers_static(obj, predicate)
+            if hit is None:
+                # only members found on the class are position-independent; anything else disables the memo for this key
+                if any(name in d for name, _ in real):
+                    return real
+                self._memo[key] = [real, 1]
+            else:
+                self.verified += 1
+                if [(n, m) for n, m in real] != [(n, m) for n, m in hit[0]]:
+                    self.mismatch += 1
+                    return real
+                hit[1] += 1
+            return real
+        return list(hit[0])
+
+
 _env = {}
 
 
@@ -109,6 +212,7 @@ def _setup():
     from openpectus.engine.hardware import HardwareLayerBase, HardwareLayerException, Register, RegisterDirection
     from openpectus.lang.exec.tags import Tag, SystemTagName
     HR.time = _VT
+    HR.inspect = _InspectMemo()
 
     class RecHW(HardwareLayerBase):
         """mode 0: everything works; 1: every read/write fails; 2: every register but the first fails.
@@ -162,6 +266,12 @@ def run_sequence(env, c, seq, cnt, info):
     tag = env["Tag"](env["tagname"], value="Disconnected")
     cfg = HR.ErrorRecoveryConfig()
     cfg.only_write_modified_values = c["owm"]
+    deep = c.get("deep")
+    plen = 0
+    if deep:
+        cfg.reconnect_timeout_seconds = DEEP_RT
+        cfg.error_timeout_seconds = DEEP_ET
+        plen = len(DEEP_PREFIXES[deep][0])
     d = HR.ErrorRecoveryDecorator(hw, cfg, tag)
     d.reconnect_backoff_ticks = list(range(64))
     advR = cfg.reconnect_timeout_seconds + 1
@@ -175,6 +285,9 @@ def run_sequence(env, c, seq, cnt, info):
     had_failed_write = False
     recovered_pending = False                 # there was an outage (state left OK) since the last clean cycle
     nontrivial = False
+    via_error = False                         # the decorator has been in Error since the last clean cycle
+    error_entered_with_new_value = False      # ... and entered it in a write cycle that commanded a new value
+    clean_after_that = 0
 
     def after_call(i, a):
         """Inspect what the fake saw during one decorator call: rule (i) + mechanism bookkeeping."""
@@ -234,6 +347,7 @@ def run_sequence(env, c, seq, cnt, info):
             elif a == "Cq":
                 commanded[regs[-1].name] = cyc * 8 + nreg - 1
             values = [commanded[r.name] for r in regs]
+            new_value = any((v >> 3) == cyc for v in values)
             raised = None
             any_hw_fail = False
             calls = [(values, regs)] if batch else [([v], [r]) for v, r in zip(values, regs)]
@@ -260,8 +374,25 @@ def run_sequence(env, c, seq, cnt, info):
             st = d.state.name
             cnt["cycles"] = cnt.get("cycles", 0) + 1
             sig.append((a, st, raised is not None, any_hw_fail))
+            if st == "Error":
+                via_error = True
+                if state_before != "Error" and new_value:
+                    error_entered_with_new_value = True
+                    clean_after_that = 0
+                    cnt["cycles_entering_error_with_new_value"] = cnt.get("cycles_entering_error_with_new_value", 0) + 1
             if not viol and raised is None and st == "OK" and not any_hw_fail:
                 cnt["clean_cycle_checks"] = cnt.get("clean_cycle_checks", 0) + 1
+                if i >= plen and deep:
+                    cnt["deep_clean_cycle_checks"] = cnt.get("deep_clean_cycle_checks", 0) + 1
+                if via_error:
+                    via_error = False
+                    cnt["recoveries_from_error_then_clean_cycle"] = cnt.get("recoveries_from_error_then_clean_cycle", 0) + 1
+                if error_entered_with_new_value:
+                    clean_after_that += 1
+                    if clean_after_that == 2:
+                        error_entered_with_new_value = False
+                        k2 = "recoveries_after_error_entered_with_new_value_then_2_clean_cycles"
+                        cnt[k2] = cnt.get(k2, 0) + 1
                 if recovered_pending:
                     cnt["recoveries_then_clean_cycle"] = cnt.get("recoveries_then_clean_cycle", 0) + 1
                     recovered_pending = False
@@ -296,6 +427,8 @@ def run_sequence(env, c, seq, cnt, info):
                     _VT.t += advR
                 elif a == "E":
                     _VT.t += advE
+                elif a == "t":
+                    _VT.t += 1.0
                 elif a == "T+" or a == "T-":
                     hw.cfail = a == "T-"
                     d.tick()
@@ -306,10 +439,16 @@ def run_sequence(env, c, seq, cnt, info):
             after_call(i, a)
             if d.state.name != "OK":
                 recovered_pending = True
+            if d.state.name == "Error":
+                via_error = True
             sig.append((a, d.state.name))
+        if deep and i == plen - 1 and not viol:
+            ok = d.state.name == DEEP_PREFIXES[deep][1]
+            k2 = "deep_start_in_intended_state" if ok else "deep_start_elsewhere"
+            cnt[k2] = cnt.get(k2, 0) + 1
         if viol:
             break
-    info.append((tuple(sig), nontrivial))
+    info.append((tuple(sig[plen:]), nontrivial))
     return viol
 
 
@@ -320,9 +459,11 @@ def run_shard(spec):
     seen: set = set()
     for job in spec["jobs"]:
         c, L, first = job["c"], job["L"], job["first"]
-        alpha = _alphabet(c["nreg"], c["extra"])
-        head = [alpha[i] for i in first]
-        ckey = (c["nreg"], c["owm"], c["api"])
+        alpha = _alpha_of(c)
+        deep = c.get("deep")
+        prefix = list(DEEP_PREFIXES[deep][0]) if deep else []
+        head = prefix + [alpha[i] for i in first]
+        ckey = (c["nreg"], c["owm"], c["api"], deep)
         n = 0
         for tail in itertools.product(alpha, repeat=L - len(first)):
             seq = head + list(tail)
@@ -340,10 +481,21 @@ def run_shard(spec):
             for mech, msg in viol:
                 res.violation(mech, msg, {"c": c, "seq": seq})
         cnt["sequences"] = cnt.get("sequences", 0) + n
+        if deep:
+            cnt["deep_sequences"] = cnt.get("deep_sequences", 0) + n
+            cnt["deep_start:" + deep] = cnt.get("deep_start:" + deep, 0) + n
         part = (f"all {len(alpha)}^{L} sequences of length {L} (all prefixes checked) over {'/'.join(alpha)}, registers={c['nreg']}, "
                 f"only_write_modified_values={c['owm']}, api={c['api']}")
+        if deep:
+            part += (f", after the fixed prefix {'/'.join(prefix)} (deep start '{deep}', reconnect_timeout={DEEP_RT}s, "
+                     f"error_timeout={DEEP_ET}s, t = 1 s)")
         if part not in res.exhaustive_parts:
             res.exhaustive_parts.append(part)
+    memo = env["HR"].inspect
+    cnt["inspect_memo_verified"] = memo.verified
+    if memo.mismatch:
+        cnt["inspect_memo_mismatch"] = memo.mismatch
+        res.notes.append("inspect memo mismatch: the memoised getmembers_static differed from the real one")
     for k, n in cnt.items():
         res.count(k, n)
     return res
